@@ -7,6 +7,7 @@
 package c08
 
 import (
+	"errors"
 	"fmt"
 	"net"
 	"os"
@@ -121,6 +122,8 @@ func (w *world) kindLines(kind string, gen int) []string {
 		return []string{"errors {\n\t\t404\n\t}"}
 	case "failstartup":
 		return []string{fmt.Sprintf("verifgate %d failstartup", gen)}
+	case "setup_panic":
+		return []string{fmt.Sprintf("verifgate %d panicsetup", gen)}
 	case "log_unwritable":
 		return []string{"log / /proc/no-such-dir/access.log"}
 	}
@@ -256,6 +259,9 @@ var (
 // reloadBySignal reloads the base instance the way production does: SIGUSR1 to the process, the
 // handler asks the registered loader for the Casketfile, purges the event hooks and restarts;
 // callback gates (verifgate in the base site) tell how it ended.
+// loaderBroken makes the registered loader fail (the Casketfile cannot be read).
+var loaderBroken atomic.Bool
+
 func (w *world) reloadBySignal(in casket.Input) (*casket.Instance, error) {
 	sigInput.Store(in)
 	select {
@@ -334,6 +340,17 @@ func TestC08(t *testing.T) {
 	w.gen, w.basegen = 1, 1
 	sigOnce.Do(func() {
 		casket.RegisterCasketfileLoader("verifc08", casket.LoaderFunc(func(string) (casket.Input, error) {
+			if loaderBroken.Load() {
+				// the handler logs the error and goes back to waiting for signals: tell the driver
+				go func() {
+					time.Sleep(30 * time.Millisecond)
+					select {
+					case sigDone <- "err":
+					default:
+					}
+				}()
+				return nil, errors.New("scripted: the Casketfile cannot be read")
+			}
 			in, _ := sigInput.Load().(casket.Input)
 			return in, nil
 		}))
@@ -424,7 +441,9 @@ func TestC08(t *testing.T) {
 				case "reload":
 					inst, e = w.base.Restart(in)
 				case "sigreload":
+					loaderBroken.Store(a.K == "loader_fail")
 					inst, e = w.reloadBySignal(in)
+					loaderBroken.Store(false)
 				}
 				return e
 			})
@@ -514,6 +533,37 @@ func TestC08(t *testing.T) {
 			tw.Emit(e)
 		}
 		ntraces++
+		// between two histories (outside the traces): after a history with a refused reload the base
+		// lineage is retired - stopped, waited for, replaced by a freshly started one. Waiting must end:
+		// whatever a refused reload added to the lineage's wait group it has to have given back.
+		refusedReload := false
+		for _, a := range h.Attempts {
+			if (a.S == "reload" || a.S == "sigreload") && a.K != "ok" {
+				refusedReload = true
+			}
+		}
+		if refusedReload && !aborted {
+			old := w.base
+			old.Stop()
+			old.ShutdownCallbacks()
+			waited := make(chan struct{})
+			go func() { old.Wait(); close(waited) }()
+			select {
+			case <-waited:
+			case <-time.After(5 * time.Second):
+				res.Add(hx.Mismatch{Key: "C08/residue/wait-never-returns/" + h.key(), Case: h,
+					What: "after history " + h.key() + " (a refused reload in it) the base instance was stopped, but Wait() on it does not return: the refused reload left something in the lineage's wait group"})
+				aborted = true
+			}
+			w.gen++
+			nb, e := casket.Start(w.baseConfig(w.gen))
+			if e != nil {
+				res.Infra = "restarting the base site between two histories: " + e.Error()
+				aborted = true
+				break
+			}
+			w.base, w.basegen = nb, w.gen
+		}
 		nt := ""
 		for _, a := range h.Attempts {
 			if a.K != "ok" && a.S != "validate" {
